@@ -179,6 +179,10 @@ func prefixCompatible(a, b []string) bool {
 	return true
 }
 
+// methodReads: for concrete in-module methods whose body only reads fields of the receiver directly,
+// the set of those fields (absent = unknown: the call may read anything reachable from the receiver).
+var methodReads = map[*types.Func][]string{}
+
 // mentions: does fact f depend on the memory named by (root, path)?
 func mentions(f *Term, root types.Object, path []string) bool {
 	hit := false
@@ -188,6 +192,25 @@ func mentions(f *Term, root types.Object, path []string) bool {
 			return
 		}
 		switch t.K {
+		case "mcall":
+			if fn, ok := t.Obj.(*types.Func); ok && len(t.A) >= 1 {
+				if fields, known := methodReads[fn]; known {
+					if r, p, isPath := accessPath(t.A[0]); isPath && r == root {
+						for _, fl := range fields {
+							if prefixCompatible(append(append([]string{}, p...), fl), path) {
+								hit = true
+							}
+						}
+						if len(path) <= len(p) && prefixCompatible(p, path) {
+							hit = true // the receiver itself (or an enclosing object) is replaced
+						}
+						for _, a := range t.A[1:] {
+							rec(a)
+						}
+						return
+					}
+				}
+			}
 		case "var", "sel":
 			if r, p, ok := accessPath(t); ok {
 				if r == root && prefixCompatible(p, path) {
@@ -437,7 +460,9 @@ func (b *termBuilder) callTerm(c *ast.CallExpr) *Term {
 					return mk("mcall", "Before", args[0], recv)
 				}
 			}
-			return mk("mcall", fn.Name(), append([]*Term{recv}, args...)...)
+			mt := mk("mcall", fn.Name(), append([]*Term{recv}, args...)...)
+			mt.Obj = fn.Origin()
+			return mt
 		}
 		return mk("call", objQual(fn.Origin()), args...)
 	}
@@ -659,6 +684,12 @@ func (b Bind) clone() Bind {
 func nameMatches(pat, have string) bool {
 	if pat == have || pat == "" {
 		return true
+	}
+	if i := strings.Index(have, "["); i > 0 && !strings.HasPrefix(have, "[") && !strings.Contains(pat, "[") {
+		have = have[:i]
+		if pat == have {
+			return true
+		}
 	}
 	if strings.HasSuffix(have, "."+pat) {
 		return true
